@@ -232,3 +232,11 @@ func confV1(engine string, extra string) string {
 }
 
 func jsonUnmarshal(s string, v interface{}) error { return json.Unmarshal([]byte(s), v) }
+
+func writeFileAt(dir, name, content string) {
+	p := filepath.Join(dir, name)
+	os.MkdirAll(filepath.Dir(p), 0755)
+	ioutil.WriteFile(p, []byte(content), 0644)
+}
+
+func removeAll(dir string) { os.RemoveAll(dir) }
